@@ -172,6 +172,12 @@ static void htp_gzip_decompressor_end(htp_decompressor_gzip_t *drec) {
         inflateEnd(&drec->stream);
         drec->zlib_initialized = 0;
     }
+
+    // Whatever the output buffer holds has been handed out already (the
+    // decompressor is shut down when a consumer refuses a full buffer); mark
+    // it empty, or the next data chunk would deliver the same bytes again.
+    drec->stream.next_out = drec->buffer;
+    drec->stream.avail_out = GZIP_BUF_SIZE;
 }
 
 /**
